@@ -228,8 +228,48 @@ def run_realign_file(scratch, g_text, fasta_text, recs, tag="ra"):
     return out, lines
 
 
-def judge_records(res, g, reads, recs, out, lines, info):
-    case0 = {"gfa": g.text(), "reads": None, "records": None}
+def judge_one(g, reads, rin, line):
+    """-> list of (kind, text) for one output line"""
+    bad = []
+    try:
+        rout = rgfa.Rec.parse(line)
+    except Exception as e:
+        return [("unparsable", f"{line!r}: {e}")], None
+    read = reads[rin.qname][rin.qs : rin.qe]
+    ref = g.spell(rgfa.parse_steps(rin.path))[rin.ps : rin.pe]
+    if rin.qe - rin.qs > 60_000:
+        if line != rin.line():
+            bad.append(("passthrough-changed", f"a record of {rin.qe - rin.qs} read bases must pass through unchanged: {line[:120]!r}"))
+        return bad, None
+    a, b = rin.cols(), rout.cols()
+    for i in (0, 1, 2, 3, 4, 5, 6, 7, 8, 11):
+        if a[i] != b[i]:
+            bad.append(("column-changed", f"column {i + 1} changed {a[i]!r} -> {b[i]!r}"))
+    if rin.opt_without("cg") != rout.opt_without("cg"):
+        bad.append(("optional-fields-changed", f"optional fields {rin.opt} -> {rout.opt}"))
+    cg = rout.opt_get("cg")
+    if cg is None:
+        bad.append(("no-cigar", "the output record has no cg field"))
+        return bad, None
+    err, matches, cols = replay_cigar(cg, read, ref)
+    if err:
+        bad.append(("invalid-cigar", f"{rin.path} [{rin.ps},{rin.pe}) read {read[:40]!r} vs path {ref[:40]!r}: output cg {cg[:60]}: {err}"))
+        return bad, None
+    if rout.matches != matches or rout.block != cols:
+        bad.append(("match-or-block-column", f"cg {cg[:60]} has {matches} matches over {cols} columns, the record says {rout.matches}/{rout.block}"))
+    cost = cigar_cost(cg)
+    cin = rin.opt_get("cg")
+    if cin is not None:
+        e_in, _, _ = replay_cigar(cin, read, ref)
+        if e_in is None and cost > cigar_cost(cin):
+            bad.append(("worse-than-input", f"read {read[:40]!r} vs path {ref[:40]!r}: output cg {cg[:60]} costs {cost}, the input cg {cin[:60]} costs {cigar_cost(cin)}"))
+    opt = None
+    if len(read) * len(ref) <= 40_000:  # the quadratic DP is only for the small strings
+        opt = cost == optimal(read, ref)[0]
+    return bad, opt
+
+
+def judge_records(res, g, reads, recs, out, lines, info, scratch=None):
     if out.kind != "ok":
         res.fail(f"C12/realign-failed:{out.sig()}", f"realign failed on {len(recs)} valid records: {out.brief()}",
                  {"gfa": g.text(), "reads": {r.qname: reads[r.qname] for r in recs[:50]}, "records": [r.line() for r in recs[:50]]})
@@ -237,50 +277,36 @@ def judge_records(res, g, reads, recs, out, lines, info):
     if len(lines) != len(recs):
         res.fail("C12/record-count", f"{len(recs)} records in, {len(lines)} out", {"gfa": g.text(), "reads": {r.qname: reads[r.qname] for r in recs[:50]}, "records": [r.line() for r in recs[:50]]})
         return
-    for rin, line, (nedits, rev) in zip(recs, lines, info):
+
+    def shrink(idx, kind):
+        """smallest file context in which the record at idx still fails in the same way (a failure may depend on the
+        records before it in the file)"""
+        from mc import conv
+
+        def still(lst):
+            fa = "".join(f">{q}\n{reads[q]}\n" for q in dict.fromkeys(r.qname for r in lst))
+            o, ls = run_realign_file(scratch, g.text(), fa, lst, tag="shrink")
+            if o.kind != "ok" or len(ls) != len(lst):
+                return True
+            return any(k == kind for k, t in judge_one(g, reads, lst[-1], ls[-1])[0])
+
+        return conv.shrink_context(recs, idx, still)
+
+    for idx, (rin, line, (nedits, rev)) in enumerate(zip(recs, lines, info)):
         res.evaluations += 1
-        case = {"gfa": g.text(), "reads": {rin.qname: reads[rin.qname]}, "records": [rin.line()]}
         if nedits or rev:
             res.nt(fw.h64(rin.line() + reads[rin.qname]))
-        try:
-            rout = rgfa.Rec.parse(line)
-        except Exception as e:
-            res.fail("C12/unparsable", f"{line!r}: {e}", case)
-            continue
-        read = reads[rin.qname][rin.qs : rin.qe]
-        ref = g.spell(rgfa.parse_steps(rin.path))[rin.ps : rin.pe]
-        if rin.qe - rin.qs > 60_000:
-            if line != rin.line():
-                res.fail("C12/passthrough-changed", f"a record of {rin.qe - rin.qs} read bases must pass through unchanged: {line[:120]!r}", case)
-            continue
-        a, b = rin.cols(), rout.cols()
-        for i in (0, 1, 2, 3, 4, 5, 6, 7, 8, 11):
-            if a[i] != b[i]:
-                res.fail("C12/column-changed", f"column {i + 1} changed {a[i]!r} -> {b[i]!r}", case)
-        if rin.opt_without("cg") != rout.opt_without("cg"):
-            res.fail("C12/optional-fields-changed", f"optional fields {rin.opt} -> {rout.opt}", case)
-        cg = rout.opt_get("cg")
-        if cg is None:
-            res.fail("C12/no-cigar", "the output record has no cg field", case)
-            continue
-        err, matches, cols = replay_cigar(cg, read, ref)
-        if err:
-            res.fail("C12/invalid-cigar", f"{rin.path} [{rin.ps},{rin.pe}) read {read!r} vs path {ref!r}: output cg {cg}: {err}", case)
-            continue
-        if rout.matches != matches or rout.block != cols:
-            res.fail("C12/match-or-block-column", f"cg {cg} has {matches} matches over {cols} columns, the record says {rout.matches}/{rout.block}", case)
-        cost = cigar_cost(cg)
-        cin = rin.opt_get("cg")
-        if cin is not None:
-            e_in, _, _ = replay_cigar(cin, read, ref)
-            if e_in is None and cost > cigar_cost(cin):
-                res.fail("C12/worse-than-input", f"read {read!r} vs path {ref!r}: output cg {cg} costs {cost}, the input cg {cin} costs {cigar_cost(cin)}", case)
-        if len(read) * len(ref) <= 40_000:  # the quadratic DP is only for the small strings
-            best, _ = optimal(read, ref)
-            if cost == best:
-                res.count("outputs_optimal")
-            else:
-                res.count("outputs_not_optimal(info)")
+        bad, opt = judge_one(g, reads, rin, line)
+        if opt is True:
+            res.count("outputs_optimal")
+        elif opt is False:
+            res.count("outputs_not_optimal(info)")
+        for kind, text in bad:
+            ctx = [rin]
+            if scratch is not None and res.would_keep(f"C12/{kind}"):
+                ctx = shrink(idx, kind)
+            case = {"gfa": g.text(), "reads": {r.qname: reads[r.qname] for r in ctx}, "records": [r.line() for r in ctx]}
+            res.fail(f"C12/{kind}", text + (f" (only after {len(ctx) - 1} earlier record(s) in the same file)" if len(ctx) > 1 else ""), case)
 
 
 def run_shard(spec, tier, scratch):
@@ -321,7 +347,8 @@ def run_shard(spec, tier, scratch):
             info.append((len(eds), any(o == "<" for o, x in steps)))
     fasta = "".join(f">{q}\n{s_}\n" for q, s_ in reads.items())
     out, lines = run_realign_file(scratch, g.text(), fasta, recs)
-    judge_records(res, g, reads, recs, out, lines, info)
+
+    judge_records(res, g, reads, recs, out, lines, info, scratch)
     if recs and spec["shard"] == 0:
         k = len(recs) // 2
         res.sample({"record": recs[k].line(), "read": reads[recs[k].qname], "path_sequence": g.spell(rgfa.parse_steps(recs[k].path)), "output": lines[k] if k < len(lines) else None})
@@ -342,6 +369,38 @@ def boundary(res, scratch):
         cg = f"{qlen - 10}=5X5="
         recs.append(rgfa.Rec("long", len(reads["long"]), 0, qlen, "+", ">b1>b2", len(big) + 4, 5, 5 + qlen, qlen - 5, qlen, 60, ["tp:A:P", f"cg:Z:{cg}", "zz:Z:t_1"]))
         info.append((1, False))
+    # the guard is on the READ span: 60,001 read bases over 59,991 path bases pass through, 59,995 read bases over
+    # 60,005 path bases are realigned
+    ins = "ACGTTGCAAC"
+    reads["longins"] = big[5:30_005] + ins + big[30_005:60_001 - 10 + 5]
+    recs.append(rgfa.Rec("longins", len(reads["longins"]), 0, 60_001, "+", ">b1>b2", len(big) + 4, 5, 5 + 59_991, 59_991, 60_001, 60, ["tp:A:P", "cg:Z:30000=5I5I29991=", "zz:Z:t_2"]))
+    info.append((1, False))
+    reads["longdel"] = big[5:30_005] + big[30_015:60_010]
+    recs.append(rgfa.Rec("longdel", len(reads["longdel"]), 0, 59_995, "+", ">b1>b2", len(big) + 4, 5, 5 + 60_005, 59_995, 60_005, 60, ["tp:A:P", "cg:Z:30000=5D5D29995=", "zz:Z:t_3"]))
+    info.append((1, False))
+    # long reads (> 10 kb) with two large gaps; the input CIGAR is the exact edit script, so its cost is the bar
+    gapA, gapB = gen._seq(150, 77), 150
+    for k, (first, second) in enumerate((("I", "D"), ("D", "I"), ("I", "I"), ("D", "D"))):
+        p0, L = 100, 12_400
+        path_slice = big[p0 : p0 + L]
+        read, cg, pos = "", "", 0
+        for j, kind in enumerate((first, second)):
+            seg_end = 4_000 * (j + 1)
+            read += path_slice[pos:seg_end]
+            cg += f"{seg_end - pos}="
+            pos = seg_end
+            if kind == "I":
+                read += gapA
+                cg += "150I"
+            else:
+                pos += gapB
+                cg += "150D"
+        read += path_slice[pos:]
+        cg += f"{L - pos}="
+        q = f"gaps{first}{second}"
+        reads[q] = read
+        recs.append(rgfa.Rec(q, len(read), 0, len(read), "+", ">b1>b2", len(big) + 4, p0, p0 + L, L - 300, L + 150, 60, ["tp:A:P", f"cg:Z:{cg}", "zz:Z:t_4"]))
+        info.append((2, False))
     fasta = "".join(f">{q}\n{s_}\n" for q, s_ in reads.items())
     out, lines = run_realign_file(scratch, g.text(), fasta, recs, tag="big")
     judge_records(res, g, reads, recs, out, lines, info)
@@ -357,5 +416,5 @@ def replay(case, scratch):
         pass
     fasta = "".join(f">{q}\n{s_}\n" for q, s_ in reads.items())
     out, lines = run_realign_file(scratch, case["gfa"], fasta, recs)
-    judge_records(res, g, reads, recs, out, lines, [(1, False)] * len(recs))
+    judge_records(res, g, reads, recs, out, lines, [(1, False)] * len(recs), None)
     return res.failures
